@@ -742,3 +742,61 @@ def entry_or_insert_with(ev, cx, args):
 @model("or_insert", "hashentry")
 def entry_or_insert(ev, cx, args):
     return _entry_or_insert(ev, cx, args, lambda env, p: [("val", env, p, args[1])])
+
+
+# ---------------------------------------------------------------------------- Option: in-place mutation
+
+def _opt_store(ev, cx, env, path, opt, value, how):
+    path.events.append(("store", cx.site, opt, value))
+    path.events.append(("optset", cx.site, opt, value, how))
+    ev._remember(env, opt, value)
+
+
+@model("get_or_insert_with", "option")
+def opt_get_or_insert_with(ev, cx, args):
+    out = []
+    for n, p, env in _opt_split(ev, cx, args[0]):
+        if n == "Some":
+            out.append(("val", env, p, ev.payload(args[0], OPTION, "Some")))
+        else:
+            for r in _apply(ev, cx, args[1], (), env, p, "f", 1):
+                if r[0] != "val":
+                    out.append(r)
+                    continue
+                _opt_store(ev, cx, r[1], r[2], args[0], some(r[3]), "get_or_insert_with")
+                out.append(("val", r[1], r[2], r[3]))
+    return out
+
+
+@model("get_or_insert", "option")
+def opt_get_or_insert(ev, cx, args):
+    out = []
+    for n, p, env in _opt_split(ev, cx, args[0]):
+        if n == "Some":
+            out.append(("val", env, p, ev.payload(args[0], OPTION, "Some")))
+        else:
+            _opt_store(ev, cx, env, p, args[0], some(args[1]), "get_or_insert")
+            out.append(("val", env, p, args[1]))
+    return out
+
+
+@model("insert", "option")
+def opt_insert(ev, cx, args):
+    _opt_store(ev, cx, cx.env, cx.path, args[0], some(args[1]), "insert")
+    return [("val", cx.env, cx.path, args[1])]
+
+
+@model("replace", "option")
+def opt_replace(ev, cx, args):
+    old = ("call", cx.site, args)
+    ev.callees[cx.site] = cx.callee
+    _opt_store(ev, cx, cx.env, cx.path, args[0], some(args[1]), "replace")
+    return [("val", cx.env, cx.path, old)]
+
+
+@model("take", "option")
+def opt_take(ev, cx, args):
+    old = ("call", cx.site, args)
+    ev.callees[cx.site] = cx.callee
+    _opt_store(ev, cx, cx.env, cx.path, args[0], NONE, "take")
+    return [("val", cx.env, cx.path, old)]
